@@ -5,6 +5,7 @@
 //	dbt kth   <dir> <seed>   failures at the k-th of n matched documents / batch items (C02)
 //	dbt uniq  <dir> <seed>   writes close to uniqueness violations (C07)
 //	dbt oplog <dir> <seed>   multi-document writes with document-dependent change events, no-ops, drops (C08)
+//	dbt clean <dir> <seed>   the real Transaction.Clean on crafted change logs: every configuration of the retention grid (C08)
 //	dbt index <dir> <seed>   every write path next to partial / multikey / compound indexes (C15)
 package main
 
@@ -71,6 +72,9 @@ func main() {
 		dbt.RunScenarios(dbt.OplogScenarios(), mk, flush)
 	case "index":
 		dbt.RunScenarios(dbt.IndexScenarios(), mk, flush)
+	case "clean":
+		hists = dbt.CleanGrid(trace)
+		hists += dbt.Retain(trace)
 	default:
 		util.Die("unknown mode %s", mode)
 	}
